@@ -35,8 +35,8 @@ def t_try(marker):
             f.write('finally')
 
 
-def t_item(x=0, *a, **k):
-    return x * x
+def t_item(x=0, y=1, *a, **k):
+    return x * x * y
 
 
 def t_state(worker_ref=None):
@@ -99,3 +99,23 @@ def _mk():
 
 
 _mk()
+
+
+# ---- C05: echo targets
+def t_echo(*args, **kwargs):
+    return (list(args), dict(kwargs))
+
+
+def t_echo_mutating(*args, **kwargs):
+    out = (list(args), dict(kwargs))
+    for a in args:
+        if isinstance(a, list):
+            a.append('mutated')
+    kwargs['mutated'] = True
+    return out
+
+
+def t_fail_on_neg(x=0, *a, **k):
+    if x < 0:
+        raise ValueError('negative')
+    return x * x
